@@ -206,10 +206,18 @@ Definition drive_fuel (b : zbuf) (ops : Z) : nat := S (drive_potential b ops).
 Definition drive_start (in_place : bool) (b : zbuf) : zbuf :=
   if in_place then with_pr b [] (arr b) O else clear_output b.
 
-Definition drive {E C} (M : machine E C) (st : state_table E) (ng : N) (gate : option rgate) (c0 : C) (b : zbuf) (ops : Z)
+(* `ecap` is an EVALUATION device, not part of the modelled code: when non-zero it cuts the loop of a
+   streaming (not in-place) subtable after `ecap` iterations with Error OutOfFuel, so that the
+   correspondence run can abandon cases whose intermediate buffer explodes (the list-based buffer model
+   is quadratic there) — such a case is reported as not evaluated, never as agreeing.  0 = no cut:
+   the fuel is drive_fuel, which the totality theorems show to be sufficient. *)
+Definition eval_fuel (in_place : bool) (ecap full : nat) : nat :=
+  if in_place then full else match ecap with O => full | _ => Nat.min full ecap end.
+
+Definition drive {E C} (M : machine E C) (st : state_table E) (ng : N) (gate : option rgate) (ecap : nat) (c0 : C) (b : zbuf) (ops : Z)
   : result (zbuf * Z * N) :=
   let b0 := drive_start (m_in_place M) b in
-  match drive_loop M st ng (drive_fuel b0 ops) 0 c0 b0 ops 0 gate O with
+  match drive_loop M st ng (eval_fuel (m_in_place M) ecap (drive_fuel b0 ops)) 0 c0 b0 ops 0 gate O with
   | None => Error OutOfFuel
   | Some (Error e) => Error e
   | Some (Ok (_, b1, ops1, amb)) =>
@@ -555,15 +563,15 @@ Fixpoint nonctx_gated_loop (l : aat_lookup) (ng : N) (g : rgate) (lr : nat) (a :
 Definition apply_noncontextual_gated (l : aat_lookup) (ng : N) (g : rgate) (b : zbuf) : result zbuf :=
   do a <- nonctx_gated_loop l ng g O (arr b); Ok (of_arr b a).
 
-Definition apply_subtable (k : morx_kind) (ng : N) (gate : option rgate) (b : zbuf) (ops : Z) : result (zbuf * Z * N) :=
+Definition apply_subtable (k : morx_kind) (ng : N) (gate : option rgate) (ecap : nat) (b : zbuf) (ops : Z) : result (zbuf * Z * N) :=
   match k with
-  | MRearrangement t => drive rearr_machine t ng gate (O, O) b ops
-  | MContextual t subs => drive (ctx_machine subs ng) t ng gate (false, O) b ops
-  | MLigature t actions comps ligs => drive (lig_machine actions comps ligs) t ng gate lig_ctx0 b ops
+  | MRearrangement t => drive rearr_machine t ng gate ecap (O, O) b ops
+  | MContextual t subs => drive (ctx_machine subs ng) t ng gate ecap (false, O) b ops
+  | MLigature t actions comps ligs => drive (lig_machine actions comps ligs) t ng gate ecap lig_ctx0 b ops
   | MNonContextual l =>
     match gate with
     | None => Ok (apply_noncontextual l ng b, ops, 0)
     | Some g => do b1 <- apply_noncontextual_gated l ng g b; Ok (b1, ops, 0)
     end
-  | MInsertion t glyphs => drive (ins_machine glyphs) t ng gate O b ops
+  | MInsertion t glyphs => drive (ins_machine glyphs) t ng gate ecap O b ops
   end.
